@@ -67,9 +67,10 @@ JudgeP(e) ==
   IF e.res # "ok" THEN "P:valid-input-raised"
   ELSE CASE e.ev = "inv" ->
          IF Len(e.th) # NP \/ Len(e.rt1) # NP \/ Len(e.rt2) # NP \/ Len(e.tt) # NP THEN "P:inverse"
-         \* the back-transformed lattice point is the stated rational, inside the bounds
-         ELSE IF \E i \in 1..NP : LET t == BackQ(PS[i], e.E[i]) IN ~(InSupport(PS[i], t) /\ FxMatches(e.th[i], t[1], t[2]))
-              THEN "P:back-transform-value"
+         \* the back-transformed point lies inside the bounds
+         ELSE IF \E i \in 1..NP : ~( (PS[i].ty \in {0, 2} => e.th[i] > PS[i].a * Unit - 1)
+                                     /\ (PS[i].ty \in {0, 1} => e.th[i] < PS[i].b * Unit + 1) )
+              THEN "P:back-transform-inside-bounds"
          \* transform(back_transform(tt)) = tt
          ELSE IF \E i \in 1..NP : ~Near(e.rt1[i], TTMicro(PS[i], e.E[i]), TTErr(PS[i], e.E[i])) THEN "P:inverse"
          \* back_transform(transform(t)) = t
@@ -91,7 +92,9 @@ JudgeP(e) ==
 JudgeM(e) ==
   IF e.res # "ok" THEN ""
   ELSE CASE e.ev = "inv" ->
-         IF \E i \in 1..NP : ~Near(e.tt[i], TTMicro(PS[i], e.E[i]), TTErr(PS[i], e.E[i])) THEN "M:transform-value" ELSE ""
+         IF Len(e.th) # NP \/ Len(e.tt) # NP THEN ""
+         ELSE IF \E i \in 1..NP : LET t == BackQ(PS[i], e.E[i]) IN ~FxMatches(e.th[i], t[1], t[2]) THEN "M:back-transform-value"
+         ELSE IF \E i \in 1..NP : ~Near(e.tt[i], TTMicro(PS[i], e.E[i]), TTErr(PS[i], e.E[i])) THEN "M:transform-value" ELSE ""
     [] e.ev = "mh" ->
          IF ~e.tb THEN (IF e.nj # 0 THEN "M:no-jacobian-without-transform" ELSE "")
          ELSE IF e.nj # 2 \/ Len(e.jc) # NP \/ Len(e.jp) # NP THEN "M:jacobian-called-for-both-points"
